@@ -469,9 +469,17 @@ Proof.
     eapply set_cell_inv; [exact HI| |exact H]. apply listed_of_nonfixed; assumption.
 Qed.
 
+Lemma remove_list_inv l : forall s s' r, Inv s -> remove_list e s l = (s', r) -> Inv s'.
+Proof.
+  induction l as [|a t IH]; intros s s' r HI H; simpl in H.
+  - injection H as <- _. exact HI.
+  - destruct (remove e s a) as [s1 r1] eqn:E. pose proof (remove_inv s a s1 r1 HI E) as HI1.
+    destruct r1; try (injection H as <- _; exact HI1). eapply IH; eassumption.
+Qed.
+
 Theorem step_inv s o s' r : Inv s -> step e s o = (s', r) -> Inv s'.
 Proof.
-  intros HI H. destruct o as [a tgt|a c|a d|a name k|a|tr out|a tr out]; simpl in H.
+  intros HI H. destruct o as [a tgt|a c|a d|a name k|a| |tr out|a tr out]; simpl in H.
   - destruct (in_agents e a && _); [|injection H as <- _; exact HI].
     eapply assign_inv; eassumption.
   - destruct (in_agents e a && in_cells e c && negb (is_fixed (e_kind e a))) eqn:G; [|injection H as <- _; exact HI].
@@ -485,6 +493,7 @@ Proof.
     eapply move2d_inv; [exact HI| |exact H]. apply is_grid2d_true. exact Gk.
   - destruct (in_agents e a); [|injection H as <- _; exact HI].
     eapply remove_inv; eassumption.
+  - eapply remove_list_inv; eassumption.
   - injection H as <- _. exact HI.
   - destruct (in_agents e a); [|injection H as <- _; exact HI].
     destruct (random_empty e s tr out) as [[c|] r0].
@@ -576,9 +585,163 @@ Proof.
   - apply Hset; [congruence|exact H].
 Qed.
 
+Lemma set_cell_reg s a tgt s' r : set_cell e s a tgt = (s', r) -> reg s' = reg s.
+Proof.
+  intros H. apply set_cell_cases in H.
+  destruct H as [[_ [-> _]]|[[_ [c [_ [_ [-> _]]]]]|[[_ [_ [c0 [_ [_ [-> _]]]]]]|[_ [_ [_ [-> _]]]]]]].
+  - reflexivity.
+  - reflexivity.
+  - apply enter_reg.
+  - cbn [set_ptr reg]. rewrite leave_reg. apply enter_reg.
+Qed.
+
+Lemma set_cell_content_sub s a s' r :
+  set_cell e s a None = (s', r) -> forall a' x, In a' (content s' x) -> In a' (content s x).
+Proof.
+  intros H a' x. apply set_cell_cases in H.
+  destruct H as [[_ [-> _]]|[[_ [c [Hc _]]]|[[_ [_ [c0 [_ [_ [-> _]]]]]]|[_ [_ [_ [-> _]]]]]]].
+  - tauto.
+  - discriminate.
+  - simpl. tauto.
+  - cbn [set_ptr content enter]. rewrite leave_content.
+    destruct (ptr s a) as [c0|]; [|tauto].
+    destruct (Z.eqb_spec x c0) as [->|]; [apply remove_first_In|tauto].
+Qed.
+
+(* remove() only ever takes agents out of cells, and touches nobody else's registration *)
+Lemma remove_frame s a s' r :
+  remove e s a = (s', r) ->
+  (forall a' x, In a' (content s' x) -> In a' (content s x)) /\
+  (forall a', a' <> a -> reg s' a' = reg s a').
+Proof.
+  intros H. unfold remove in H.
+  assert (Hset : set_cell e (set_reg s a false) a None = (s', r) ->
+                 (forall a' x, In a' (content s' x) -> In a' (content s x)) /\
+                 (forall a', a' <> a -> reg s' a' = reg s a')).
+  { intros H'. split.
+    - intros a' x Hin. apply (set_cell_content_sub _ _ _ _ H') in Hin. exact Hin.
+    - intros a' Hne. rewrite (set_cell_reg _ _ _ _ _ H'). simpl. apply upd_other. exact Hne. }
+  destruct (e_kind e a); [apply Hset; exact H| |apply Hset; exact H].
+  destruct (ptr s a) as [c|].
+  - unfold remove_agent in H. destruct (memz a (content (set_reg s a false) c)); injection H as <- _.
+    + split.
+      * intros a' x. change (In a' (content (leave (set_reg s a false) (Some c) a) x) -> In a' (content s x)).
+        rewrite leave_content. simpl. destruct (Z.eqb_spec x c) as [->|]; [apply remove_first_In|tauto].
+      * intros a' Hne. simpl. apply upd_other. exact Hne.
+    + split; [simpl; tauto|]. intros a' Hne. simpl. apply upd_other. exact Hne.
+  - injection H as <- _. split; [simpl; tauto|]. intros a' Hne. simpl. apply upd_other. exact Hne.
+Qed.
+
+Lemma remove_registered_ok s a s' r : Inv s -> reg s a = true -> remove e s a = (s', r) -> r = Ok [].
+Proof.
+  intros HI Hr H. unfold remove in H.
+  assert (Hl : forall c0, ptr s a = Some c0 -> In a (content s c0)).
+  { intros c0 Hp. destruct (inv_ptr s HI a c0 Hp) as [Hin|[_ Hf]]; [exact Hin|congruence]. }
+  destruct (e_kind e a).
+  - eapply set_cell_none_ok; [|exact H]. simpl. exact Hl.
+  - destruct (ptr s a) as [c|] eqn:Ep; [|injection H as _ <-; reflexivity].
+    unfold remove_agent in H. simpl in H.
+    assert (memz a (content s c) = true) as Hm by (apply memz_In; apply Hl; reflexivity).
+    rewrite Hm in H. injection H as _ <-. reflexivity.
+  - eapply set_cell_none_ok; [|exact H]. simpl. exact Hl.
+Qed.
+
+(* removing an agent takes it out of its cell, whatever the call returns *)
+Lemma remove_detaches s a s' r :
+  Inv s -> remove e s a = (s', r) ->
+  (forall c, ~ In a (content s' c)) /\ reg s' a = false /\ (e_kind e a <> KFixed -> ptr s' a = None /\ r = Ok []).
+Proof.
+  intros HI H. pose proof (remove_inv s a s' r HI H) as HI'.
+  unfold remove in H.
+  assert (Hset : e_kind e a <> KFixed -> set_cell e (set_reg s a false) a None = (s', r) ->
+                 (forall c, ~ In a (content s' c)) /\ reg s' a = false /\ (e_kind e a <> KFixed -> ptr s' a = None /\ r = Ok [])).
+  { intros Hk H'.
+    assert (ptr s' a = None /\ reg s' a = false /\ r = Ok []) as [Hp [Hr Hok]].
+    { apply set_cell_cases in H'.
+      destruct H' as [[Hp [-> Hr]]|[[Hne [c' [Hc _]]]|[[Hne [Hnr [c0 [Hp [Hni _]]]]]|[_ [_ [_ [-> Hr]]]]]]].
+      - simpl in *. rewrite upd_same. tauto.
+      - discriminate.
+      - exfalso. apply Hni. simpl in *. apply (listed_of_nonfixed s a HI Hk). exact Hp.
+      - simpl. rewrite leave_reg. simpl. rewrite !upd_same. tauto. }
+    split; [|tauto]. intros c Hin. apply (inv_listed s' HI') in Hin. congruence. }
+  destruct (e_kind e a) eqn:Ek.
+  - apply Hset; [congruence|exact H].
+  - split; [|split; [|congruence]].
+    + destruct (ptr s a) as [c|] eqn:Ep.
+      * unfold remove_agent in H. destruct (memz a (content (set_reg s a false) c)) eqn:Em.
+        -- injection H as <- _. intros x Hin.
+           pose proof Hin as Hin'. change (In a (content (leave (set_reg s a false) (Some c) a) x)) in Hin'.
+           rewrite leave_content in Hin'. simpl in Hin'.
+           destruct (Z.eqb_spec x c) as [->|Hne].
+           ++ apply (remove_first_In_iff _ _ _ (inv_nodup s HI c)) in Hin'. tauto.
+           ++ apply (inv_listed s HI) in Hin'. congruence.
+        -- injection H as <- _. intros x Hin. simpl in *.
+           pose proof (inv_listed s HI a x Hin) as Hp. rewrite Ep in Hp. injection Hp as <-.
+           apply memz_false in Em. contradiction.
+      * injection H as <- _. intros x Hin. simpl in *. apply (inv_listed s HI) in Hin. congruence.
+    + destruct (ptr s a) as [c|] eqn:Ep.
+      * unfold remove_agent in H. destruct (memz a (content (set_reg s a false) c)); injection H as <- _; simpl; apply upd_same.
+      * injection H as <- _. simpl. apply upd_same.
+  - apply Hset; [congruence|exact H].
+Qed.
+
+Lemma remove_list_ok l : forall s s' r,
+  Inv s -> NoDup l -> (forall a, In a l -> reg s a = true) -> remove_list e s l = (s', r) ->
+  r = Ok [] /\
+  (forall a, In a l -> reg s' a = false) /\
+  (forall a, ~ In a l -> reg s' a = reg s a) /\
+  (forall a x, In a (content s' x) -> In a (content s x) /\ ~ In a l).
+Proof.
+  induction l as [|a t IH]; intros s s' r HI Hn Hreg H; simpl in H.
+  - injection H as <- <-. repeat split; try tauto. intros a [].
+  - inversion Hn as [|? ? Hnot Hnt]; subst.
+    destruct (remove e s a) as [s1 r1] eqn:E.
+    pose proof (remove_registered_ok s a s1 r1 HI (Hreg a (or_introl eq_refl)) E) as ->.
+    pose proof (remove_inv s a s1 _ HI E) as HI1.
+    destruct (remove_frame s a s1 _ E) as [Hsub Hfr].
+    destruct (remove_detaches s a s1 _ HI E) as [Hdet [Hra _]].
+    assert (Hreg1 : forall a', In a' t -> reg s1 a' = true).
+    { intros a' Hin. rewrite Hfr; [apply Hreg; right; exact Hin|]. intros ->. contradiction. }
+    destruct (IH s1 s' r HI1 Hnt Hreg1 H) as [-> [H1 [H2 H3]]].
+    split; [reflexivity|]. split; [|split].
+    + intros a' [<-|Hin]; [|apply H1; exact Hin]. rewrite (H2 a Hnot). exact Hra.
+    + intros a' Hni. rewrite H2; [|intros Hin; apply Hni; right; exact Hin].
+      apply Hfr. intros ->. apply Hni. left. reflexivity.
+    + intros a' x Hin. destruct (H3 a' x Hin) as [Hin1 Hnt'].
+      split; [apply Hsub; exact Hin1|]. intros [<-|Hin']; [apply (Hdet x); exact Hin1|contradiction].
+Qed.
+
+Lemma registered_list_ok s :
+  NoDup (filter (reg s) (agents_dom e)) /\ (forall a, In a (filter (reg s) (agents_dom e)) -> reg s a = true).
+Proof.
+  split.
+  - apply NoDup_filter. unfold agents_dom, zrange.
+    apply FinFun.Injective_map_NoDup; [|apply seq_NoDup]. intros i j H. lia.
+  - intros a Hin. apply filter_In in Hin. tauto.
+Qed.
+
+(* model.remove_all_agents() never fails, unregisters every agent and leaves in the cells only agents that had
+   already left the model before (a CellAgent placed again after its removal) *)
+Lemma remove_all_spec s s' r :
+  Inv s -> step e s RemoveAll = (s', r) ->
+  r = Ok [] /\
+  (forall a, in_agents e a = true -> reg s' a = false) /\
+  (forall a x, In a (content s' x) -> In a (content s x) /\ (in_agents e a = true -> reg s a = false)).
+Proof.
+  intros HI H. simpl in H. destruct (registered_list_ok s) as [Hn Hr].
+  destruct (remove_list_ok _ s s' r HI Hn Hr H) as [-> [H1 [H2 H3]]].
+  split; [reflexivity|]. split.
+  - intros a Ha. destruct (reg s a) eqn:Er.
+    + apply H1. apply filter_In. split; [|exact Er]. unfold agents_dom. apply zrange_In. unfold in_agents in Ha. lia.
+    + rewrite H2; [exact Er|]. intros Hin. apply filter_In in Hin. destruct Hin as [_ Hin]. congruence.
+  - intros a x Hin. destruct (H3 a x Hin) as [Hin0 Hni]. split; [exact Hin0|].
+    intros Ha. destruct (reg s a) eqn:Er; [|reflexivity]. exfalso. apply Hni.
+    apply filter_In. split; [|exact Er]. unfold agents_dom. apply zrange_In. unfold in_agents in Ha. lia.
+Qed.
+
 Theorem step_err_eqv s o s' k : Inv s -> step e s o = (s', Err k) -> eqv s s'.
 Proof.
-  intros HI H. destruct o as [a tgt|a c|a d|a name n|a|tr out|a tr out]; simpl in H.
+  intros HI H. destruct o as [a tgt|a c|a d|a name n|a| |tr out|a tr out]; simpl in H.
   - destruct (in_agents e a && _); [|discriminate]. eapply assign_err_eqv; eassumption.
   - destruct (in_agents e a && in_cells e c && negb (is_fixed (e_kind e a))) eqn:G; [|discriminate].
     rewrite !andb_true_iff, negb_true_iff in G. destruct G as [_ Gk].
@@ -600,6 +763,7 @@ Proof.
       destruct (walk e v (Z.to_nat n) c0) as [c1|]; [|injection H as <- _; apply eqv_refl].
       eapply set_cell_err_eqv; [exact HI| |exact H]. apply listed_of_nonfixed; assumption.
   - destruct (in_agents e a); [|discriminate]. eapply remove_err_eqv; eassumption.
+  - destruct (remove_all_spec s s' (Err k) HI H) as [Hr _]. discriminate.
   - injection H as <- _. apply eqv_refl.
   - destruct (in_agents e a); [|discriminate].
     destruct (random_empty e s tr out) as [[c|] r0].
@@ -795,44 +959,6 @@ Proof.
     + destruct out as [c'|]; [|discriminate]. destruct (in_cells e c' && is_empty s c'); discriminate.
 Qed.
 
-(* removing an agent takes it out of its cell, whatever the call returns *)
-Lemma remove_detaches s a s' r :
-  Inv s -> remove e s a = (s', r) ->
-  (forall c, ~ In a (content s' c)) /\ reg s' a = false /\ (e_kind e a <> KFixed -> ptr s' a = None /\ r = Ok []).
-Proof.
-  intros HI H. pose proof (remove_inv s a s' r HI H) as HI'.
-  unfold remove in H.
-  assert (Hset : e_kind e a <> KFixed -> set_cell e (set_reg s a false) a None = (s', r) ->
-                 (forall c, ~ In a (content s' c)) /\ reg s' a = false /\ (e_kind e a <> KFixed -> ptr s' a = None /\ r = Ok [])).
-  { intros Hk H'.
-    assert (ptr s' a = None /\ reg s' a = false /\ r = Ok []) as [Hp [Hr Hok]].
-    { apply set_cell_cases in H'.
-      destruct H' as [[Hp [-> Hr]]|[[Hne [c' [Hc _]]]|[[Hne [Hnr [c0 [Hp [Hni _]]]]]|[_ [_ [_ [-> Hr]]]]]]].
-      - simpl in *. rewrite upd_same. tauto.
-      - discriminate.
-      - exfalso. apply Hni. simpl in *. apply (listed_of_nonfixed s a HI Hk). exact Hp.
-      - simpl. rewrite leave_reg. simpl. rewrite !upd_same. tauto. }
-    split; [|tauto]. intros c Hin. apply (inv_listed s' HI') in Hin. congruence. }
-  destruct (e_kind e a) eqn:Ek.
-  - apply Hset; [congruence|exact H].
-  - split; [|split; [|congruence]].
-    + destruct (ptr s a) as [c|] eqn:Ep.
-      * unfold remove_agent in H. destruct (memz a (content (set_reg s a false) c)) eqn:Em.
-        -- injection H as <- _. intros x Hin.
-           pose proof Hin as Hin'. change (In a (content (leave (set_reg s a false) (Some c) a) x)) in Hin'.
-           rewrite leave_content in Hin'. simpl in Hin'.
-           destruct (Z.eqb_spec x c) as [->|Hne].
-           ++ apply (remove_first_In_iff _ _ _ (inv_nodup s HI c)) in Hin'. tauto.
-           ++ apply (inv_listed s HI) in Hin'. congruence.
-        -- injection H as <- _. intros x Hin. simpl in *.
-           pose proof (inv_listed s HI a x Hin) as Hp. rewrite Ep in Hp. injection Hp as <-.
-           apply memz_false in Em. contradiction.
-      * injection H as <- _. intros x Hin. simpl in *. apply (inv_listed s HI) in Hin. congruence.
-    + destruct (ptr s a) as [c|] eqn:Ep.
-      * unfold remove_agent in H. destruct (memz a (content (set_reg s a false) c)); injection H as <- _; simpl; apply upd_same.
-      * injection H as <- _. simpl. apply upd_same.
-  - apply Hset; [congruence|exact H].
-Qed.
 
 End Invariant.
 
@@ -916,3 +1042,11 @@ Proof.
   - eapply step_err_view; eassumption.
   - eapply step_err_eqv; eassumption.
 Qed.
+
+Lemma remove_all_all e ops s' r :
+  caps_ok e -> let s := exec e init ops in
+  step e s RemoveAll = (s', r) ->
+  r = Ok [] /\
+  (forall a, in_agents e a = true -> reg s' a = false) /\
+  (forall a x, In a (content s' x) -> In a (content s x) /\ (in_agents e a = true -> reg s a = false)).
+Proof. intros Hc s. apply remove_all_spec; [exact Hc|apply reach_inv; exact Hc]. Qed.
